@@ -322,9 +322,16 @@ func (in *Interp) visit(fr *frame, instr ssa.Instruction) bool {
 		if _, sym := k.(*Term); sym {
 			panic(cut("map-update-symbolic-key"))
 		}
-		if ss, ok := k.(*symStr); ok {
-			_ = ss
-			panic(cut("map-update-symbolic-key"))
+		if in.mapSymbolic(m, k) {
+			if i := in.mapFind(m, k); i >= 0 {
+				m.entries[i].v = copyVal(fr.get(instr.Value))
+			} else if ss, isSym := k.(*symStr); isSym {
+				m.entries = append(m.entries, hentry{ss, copyVal(fr.get(instr.Value))})
+				m.nsym++
+			} else {
+				m.insert(k, copyVal(fr.get(instr.Value)))
+			}
+			break
 		}
 		m.insert(k, copyVal(fr.get(instr.Value)))
 	case *ssa.TypeAssert:
@@ -698,23 +705,20 @@ func (in *Interp) lookup(instr *ssa.Lookup, x, idx value) value {
 			}
 		case *symStr:
 			// symbolic string key: fork over the entries of equal length
-			found := false
-			if xv != nil {
-				for _, e := range xv.entries {
-					es, isS := e.k.(string)
-					if !isS || len(es) != len(k.b) {
-						continue
-					}
-					if in.truth(in.strEq(k, es)) {
-						v, ok, found = copyVal(e.v), true, true
-						break
-					}
-				}
-			}
-			if !found {
+			if i := in.mapFind(xv, k); i >= 0 {
+				v, ok = copyVal(xv.entries[i].v), true
+			} else {
 				v, ok = zero(vt), false
 			}
 		default:
+			if in.mapSymbolic(xv, idx) {
+				if i := in.mapFind(xv, idx); i >= 0 {
+					v, ok = copyVal(xv.entries[i].v), true
+				} else {
+					v, ok = zero(vt), false
+				}
+				break
+			}
 			vv, found := xv.lookup(idx)
 			if !found {
 				vv = zero(vt)
@@ -927,6 +931,12 @@ func (in *Interp) callBuiltin(fn *ssa.Builtin, args []value) value {
 		panic(engineErr("cap of %T", args[0]))
 	case "delete":
 		m := args[0].(*hmap)
+		if in.mapSymbolic(m, args[1]) {
+			if i := in.mapFind(m, args[1]); i >= 0 {
+				m.removeAt(i)
+			}
+			return nil
+		}
 		m.remove(args[1])
 		return nil
 	case "print", "println":
@@ -999,6 +1009,51 @@ func (in *Interp) simpBool(t *Term) value {
 		return c == 1
 	}
 	return t
+}
+
+// mapSymbolic reports whether finding k in m needs comparisons of symbolic strings.
+func (in *Interp) mapSymbolic(m *hmap, k value) bool {
+	if m == nil {
+		return false
+	}
+	if _, sym := k.(*symStr); sym {
+		return true
+	}
+	_, isStr := k.(string)
+	return isStr && m.nsym > 0
+}
+
+// mapFind returns the index of the entry whose string key equals k, forking on every
+// comparison that involves symbolic bytes; -1 when there is none.
+func (in *Interp) mapFind(m *hmap, k value) int {
+	if m == nil {
+		return -1
+	}
+	if ks, conc := k.(string); conc {
+		if i, ok := m.index[ks]; ok {
+			return i
+		}
+	}
+	n := strLen(k)
+	for i, e := range m.entries {
+		_, kSym := k.(*symStr)
+		_, eSym := e.k.(*symStr)
+		if !kSym && !eSym {
+			continue // two concrete keys: the index has answered
+		}
+		switch e.k.(type) {
+		case string, *symStr:
+		default:
+			continue
+		}
+		if strLen(e.k) != n {
+			continue
+		}
+		if in.truth(in.simpBool(in.strEq(e.k, k))) {
+			return i
+		}
+	}
+	return -1
 }
 
 func (in *Interp) strEq(a, b value) *Term {
